@@ -41,6 +41,8 @@ class Contract:
         trusted_base=None,
         split_returns=True,
         allocates=True,
+        log=None,
+        assumed_ensures=None,
     ):
         self.name = name
         self.params = params or {}
@@ -63,6 +65,8 @@ class Contract:
         self.cases = cases  # finite case split: list of {"bind": {param: python literal}, "label": str}
         self.trusted_base = trusted_base
         self.allocates = allocates
+        self.assumed_ensures = dict(assumed_ensures or {})  # assumed at call sites, NOT proved for the body (listed as assumptions)
+        self.log = log  # (tag, [param names]) -> the call is appended to the ghost call log ($cl_*)
 
 
 class ClassSchema:
@@ -122,6 +126,20 @@ class World:
                 v = Val(mkr(gid), type(obj) if not isinstance(obj, type) else type, py=obj)
             self.globals_by_id[gid] = v
         return self.globals_by_id[self._gid[k]]
+
+    def contract_module(self, c):
+        """the real module a contract's function lives in (its globals are visible to the contract's specifications)"""
+        m = getattr(c, "_module", None)
+        if m is None:
+            parts = c.name.split(".")
+            for k in range(len(parts) - 1, 0, -1):
+                try:
+                    m = importlib.import_module(".".join(parts[:k]))
+                    break
+                except Exception:  # noqa: BLE001
+                    continue
+            c._module = m
+        return m
 
     def add_contract(self, c: Contract):
         self.contracts[c.name] = c
